@@ -11,7 +11,7 @@ ORDERS = {7: 6, 9: 5, 11: 9, 15: 14, 20: 3, 23: 18, 31: 28}
 FACTORS = {7: [127], 9: [7, 73], 11: [23, 89], 15: [7, 31, 151], 20: [3, 5, 5, 11, 31, 41], 23: [47, 178481], 31: [2147483647]}
 BOUNDS = {'seeds': 'every 64-bit two\'s complement seed (|seed| < 2^63), symbolically',
           'states': 'every register state 0 < s < 2^n of every order, symbolically (incl. the 2^31-1 states of PRBS31)',
-          'lengths': 'end-to-end runs of len <= n+8 (quick) / n+24 (thorough); resume splits a+b <= 24 (quick) / 40 (thorough); PRBS7 also resumed after a first call longer than one period (130+3)',
+          'lengths': 'end-to-end runs of len <= n+8 (quick) / n+64 (thorough); resume splits a+b = 24 (quick, 5 splits) / 64 (thorough, every split); PRBS7 also resumed after a first call longer than one period (130+3)',
           'orders': 'all 7 supported orders; unsupported orders -4..40 by enumeration'}
 OUTSIDE = ['|seed| >= 2^63', 'end-to-end sequence lengths above the bound (covered by the one-step induction: state update + linearity + period queries)']
 ASSUMPTIONS = ['period argument: the step map T is proved GF(2)-linear and equal to M1*s for all s by the solver; M1^d is computed by repeated squaring '
@@ -220,19 +220,19 @@ def configs(tier):
     q = tier == 'quick'
     out = []
     for n in ORDERS:
-        Ls = [1, n + 8] if q else [1, 2, n, n + 24]
+        Ls = [1, n + 8] if q else [1, 2, n, n + 24, n + 64]
         for L in Ls:
             out.append((f'sequence-prbs{n}-len{L}', scen_sequence, dict(order=n, len=L), {}))
         out.append((f'default-seed-prbs{n}', scen_default_seed, dict(order=n, len=12 if q else 40), {}))
         out.append((f'period-prbs{n}', scen_period, dict(order=n, direct_max=11 if q else 15), {'validate': 2}))
-        tot = 24 if q else 40
+        tot = 24 if q else 64
         splits = [(1, tot - 1), (tot // 2, tot - tot // 2), (tot - 1, 1), (n, n), (n - 1, 2)] if q else \
             [(a, tot - a) for a in range(1, tot)]
         for a, b in splits:
             out.append((f'resume-prbs{n}-{a}+{b}', scen_resume, dict(order=n, a=a, b=b), {}))
         out.append((f'seedmod-prbs{n}', scen_validation, dict(kind='seedmod', order=n), {}))
     # a first call longer than one period (order 7: 127), then a resumed call
-    for a, b in (((130, 3),) if q else ((127, 4), (128, 3), (130, 3), (255, 2))):
+    for a, b in (((130, 3),) if q else ((127, 4), (128, 3), (130, 3), (255, 2), (300, 5))):
         out.append((f'resume-prbs7-{a}+{b}-beyond-one-period', scen_resume, dict(order=7, a=a, b=b), {'validate': 2, 'limits': {'max_branches': 3000}}))
     for o in range(-4, 41):
         out.append((f'order-{o}', scen_validation, dict(kind='order', order=o), {'validate': 1}))
